@@ -298,7 +298,12 @@ def _load_and_process_source(
         raise ConfigurationError(f"run_space source file not found: {src.path}")
 
     # Load columns
-    columns = _load_source_file(resolved, src.format)
+    try:
+        columns = _load_source_file(resolved, src.format)
+    except (OSError, UnicodeDecodeError) as exc:
+        raise ConfigurationError(
+            f"Failed to read run_space source '{src.path}': {exc}"
+        ) from exc
 
     # Apply select transformation
     if src.select is not None:
